@@ -327,7 +327,9 @@ static int rpw_rt_receive(unsigned char *block, size_t hs, size_t ps)
   CHECK(rf->header.address == (uint32_t)(addr_), "round trip: address"); \
   CHECK(rf->header.blocksize == (uint32_t)(bs_), "round trip: block size"); \
   CHECK(rf->payload.size == (size_t)(ps_) && rf->payload.data == (void *)(raw + (hs_)), "round trip: payload location and size"); \
-  CHECK(IMPLIES(g_k < (size_t)(ps_), ((const uint8_t *)rf->payload.data)[g_k] == g_tx_octet), "round trip: payload octets"); \
+  /* (read through raw + hs, which payload.data was just checked to equal: the \
+   * verifier cannot dereference a pointer it only knows by an equality) */ \
+  CHECK(IMPLIES(g_k < (size_t)(ps_), (raw + (hs_))[g_k < (size_t)(ps_) ? g_k : 0] == g_tx_octet), "round trip: payload octets"); \
 } while (0)
 
 #define RPW_HS(type_, w16_, n_) SPEC_HLEN(SPEC_EMIT_OPTS(in_ep == RP_EP_SERIAL, (w16_), (type_), (n_)))
